@@ -48,7 +48,7 @@ def one(t):
     env = dict(os.environ, VERIF_REPO=str(wt), VERIF_EVIDENCE_DIR=str(wt / 'ev'))
     for p in props:
         r = subprocess.run([str(V / 'check'), p], cwd=V, env=env, capture_output=True, text=True)
-        diag = [l for l in r.stdout.splitlines() if l.startswith(('DIAGNOSTIC', 'ANALYSIS-ERROR'))]
+        diag = [l for l in r.stdout.splitlines() if l.startswith(('DIAGNOSTIC', 'ANALYSIS-ERROR', 'UNDECIDED'))]
         res[p] = (r.returncode, diag)
     shutil.rmtree(wt, ignore_errors=True)
     return t['name'], res, tests
@@ -71,6 +71,9 @@ for name, res, info in results:
     inconclusive += bool(errs)
     status = 'FALSE-ALARM' if fired else ('inconclusive' if errs else 'silent')
     print(f'{name}: {status} violations={fired} analysis_errors={errs} {("tests: " + info) if info else ""}')
+    und = [l for p, (rc, diag) in res.items() for l in diag if l.startswith('UNDECIDED')]
+    for l in und:
+        print(f'      {l[:160]}')
     if a.v or fired or errs:
         for p, (rc, diag) in res.items():
             for l in diag[:3]:
